@@ -184,12 +184,137 @@ def rule_g5(ctx):
     ctx.check(isinstance(last, ast.Return) and src(last.value) == "context_formula", "G5-elimination-open", construct, "otherwise unchanged", site(last), "fall-through must leave the quantifier in place", "unchanged")
 
 
+class _NotFold(Exception):
+    pass
+
+
+def _fold_verdict(f: ast.FunctionDef, name: str):
+    """A loop-shaped Kleene connective `for elem in args: ...` is a finite automaton over the three truth values: the local variables hold truth values, the loop body maps
+    (state, element) to a new state or a returned value.  Explore the product with the specification automaton (all: F dominates, then U, else T; any: T dominates, then U,
+    else F) over ALL input sequences (reachable state pairs - finitely many) and return None if they agree or (input sequence, got, want) for a shortest disagreement."""
+    V = ("F", "T", "U")
+    param = f.args.args[-1].arg
+    body = [s_ for s_ in f.body if not (isinstance(s_, ast.Expr) and isinstance(s_.value, ast.Constant))]
+    loops = [s_ for s_ in body if isinstance(s_, ast.For)]
+    if len(loops) != 1 or not isinstance(loops[0].target, ast.Name) or loops[0].orelse:
+        raise _NotFold("no single for loop")
+    loop = loops[0]
+    it = loop.iter
+    if not (isinstance(it, ast.Name) and it.id == param):
+        raise _NotFold("loop does not iterate the argument")
+    elem = loop.target.id
+    pre, post = body[: body.index(loop)], body[body.index(loop) + 1:]
+
+    def const(e):
+        if isinstance(e, ast.Call) and isinstance(e.func, ast.Attribute) and src(e.func.value) == "ThreeValuedTruth" and e.func.attr in ("true", "false", "unknown") and not e.args:
+            return {"true": "T", "false": "F", "unknown": "U"}[e.func.attr]
+        return None
+
+    def val(e, env):
+        c_ = const(e)
+        if c_:
+            return c_
+        if isinstance(e, ast.Name) and e.id in env:
+            return env[e.id]
+        raise _NotFold(f"value {src(e)[:40]}")
+
+    def test(e, env):
+        if isinstance(e, ast.UnaryOp) and isinstance(e.op, ast.Not):
+            return not test(e.operand, env)
+        if isinstance(e, ast.BoolOp):
+            vs = [test(x, env) for x in e.values]
+            return all(vs) if isinstance(e.op, ast.And) else any(vs)
+        if isinstance(e, ast.Call) and isinstance(e.func, ast.Attribute) and e.func.attr in ("is_true", "is_false", "is_unknown") and not e.args:
+            return val(e.func.value, env) == {"is_true": "T", "is_false": "F", "is_unknown": "U"}[e.func.attr]
+        raise _NotFold(f"test {src(e)[:40]}")
+
+    def run(stmts, env):
+        """returns ('ret', value) or ('go', env)"""
+        for st in stmts:
+            if isinstance(st, ast.Return) and st.value is not None:
+                return "ret", val(st.value, env)
+            if isinstance(st, ast.Assign) and len(st.targets) == 1 and isinstance(st.targets[0], ast.Name):
+                env = dict(env, **{st.targets[0].id: val(st.value, env)})
+            elif isinstance(st, ast.If):
+                k, r = run(st.body if test(st.test, env) else st.orelse, env)
+                if k in ("ret", "brk", "cnt"):
+                    return k, r
+                env = r
+            elif isinstance(st, ast.Break):
+                return "brk", env
+            elif isinstance(st, ast.Continue):
+                return "cnt", env
+            elif isinstance(st, ast.Pass):
+                pass
+            else:
+                raise _NotFold(f"statement {src(st)[:40]}")
+        return "go", env
+
+    k, env0 = run(pre, {})
+    if k != "go":
+        raise _NotFold("return before the loop")
+    dom, neutral = ("F", "T") if name == "all" else ("T", "F")
+
+    def spec_step(sp, x):
+        if sp == dom or x == dom:
+            return dom
+        return "U" if "U" in (sp, x) else neutral
+
+    def finish(env):
+        k_, r_ = run(post, env)
+        if k_ != "ret":
+            raise _NotFold("no return after the loop")
+        return r_
+
+    start = (tuple(sorted(env0.items())), neutral)
+    seen = {start: ()}
+    todo = [start]
+    while todo:
+        cur = todo.pop(0)
+        env, sp = dict(cur[0]), cur[1]
+        got = finish(env)
+        if got != sp:
+            return seen[cur], got, sp
+        for x in V:
+            k_, r_ = run(loop.body, dict(env, **{elem: x}))
+            sp2 = spec_step(sp, x)
+            if k_ == "ret":
+                # an early return is final: it must be right for EVERY continuation, i.e. the spec state must be absorbing and equal
+                if not (r_ == sp2 and sp2 == dom):
+                    return seen[cur] + (x,), r_, (sp2 if sp2 != dom else sp2) if r_ != sp2 else f"{sp2} so far, but later elements can still change it"
+                continue
+            if k_ == "brk":
+                got2 = finish({k2: v2 for k2, v2 in r_.items() if k2 != elem})
+                if not (got2 == sp2 and sp2 == dom):
+                    return seen[cur] + (x,), got2, sp2
+                continue
+            nxt = (tuple(sorted((k2, v2) for k2, v2 in r_.items() if k2 != elem)), sp2)
+            if nxt not in seen:
+                seen[nxt] = seen[cur] + (x,)
+                todo.append(nxt)
+    return None
+
+
 def rule_g6(ctx):
     """Kleene connectives in three_valued_truth.py."""
     m = ctx.repo.module(TVT, "C06.G6")
     for name, first, second, default in (("all", "is_false", "false", "true"), ("any", "is_true", "true", "false")):
         f = ctx.repo.func(TVT, f"ThreeValuedTruth.{name}", "C06.G6")
         ifs = [s for s in f.body if isinstance(s, ast.If)]
+        if any(isinstance(s_, ast.For) for s_ in f.body):
+            try:
+                bad = _fold_verdict(f, name)
+            except _NotFold as e:
+                raise Unrecognised("C06.G6", f"{TVT}:ThreeValuedTruth.{name}", f"loop-shaped connective not understood ({e})")
+            full = {"F": "FALSE", "T": "TRUE", "U": "UNKNOWN"}
+            if bad is None:
+                ctx.ok("G6-kleene", f"{TVT}:ThreeValuedTruth.{name}", "Kleene fold over all operand sequences", site(f), "agrees with the specification automaton on every reachable state")
+            else:
+                seq, got, want = bad
+                ctx.viol("G6-kleene", f"{TVT}:ThreeValuedTruth.{name}", "Kleene fold over all operand sequences", site(f),
+                         f"ThreeValuedTruth.{name}([{', '.join(full[x] for x in seq)}]) yields {full.get(got, got)}, Kleene's {name} yields {full.get(want, want)}: "
+                         "an UNKNOWN operand is forgotten, so a verdict on an open tree no longer waits for the open leaves")
+            continue
         if len(ifs) != 2:
             raise Unrecognised("C06.G6", f"{TVT}:ThreeValuedTruth.{name}", "expected two guarded returns")
         t1, r1 = src(ifs[0].test), src(ifs[0].body[0])
